@@ -6,7 +6,6 @@ import Theo.Proofs.GenShapeRoutine
 
 set_option linter.unusedSimpArgs false
 set_option linter.unusedVariables false
-set_option maxHeartbeats 1000000
 
 namespace Theo
 namespace GenShape
@@ -24,6 +23,12 @@ theorem lookupFunc_cons_filter (fa : List (Bytes × ProgRec)) (nm : Bytes) (p : 
   · rw [if_pos hf, List.find?_cons_of_pos (by simp [hf])]; rfl
   · rw [if_neg hf, List.find?_cons_of_neg (by simpa using fun h => hf h.symm), find?_filter_ne' _ hf]
 
+/-- the validator's record of the routine just defined -/
+def progRi (f' : Nat) (gs gs00 : GS) (k0 : Nat) (l2 r2 : Node) (k : Nat) : RInfo :=
+  ⟨gs.code.length + (k0 - 1) + 1, k,
+   smap ((dispatchVoid f' (dispatchArgs f' (progPre gs00 l2.left.tok).1 l2.right.left) r2).fetchVar
+     (outNameOf l2.right.right)).1.top.regs⟩
+
 theorem prog_corr (P : Program) (src : Source) (L : List Int) (f' : Nat) (gs gs00 : GS) (k0 : Nat)
     (l2 r2 : Node) (k : Nat) (infos : List RInfo) (ps rest : List ProgDef)
     (hc : gs00.code = gs.code ++ List.replicate k0 Instr.potBreak)
@@ -38,12 +43,12 @@ theorem prog_corr (P : Program) (src : Source) (L : List Int) (f' : Nat) (gs gs0
     (hfin : ∀ (l : Nat) (v : Int), (progRes f' gs00 l2 r2).labels[l]? = some v → v ≠ -1 → (L[l]?).getD (-1) = v)
     (hM : (progRes f' gs00 l2 r2).stackMaps <+: P.stackMaps)
     (pc : Nat) (hpc : skipc P.code pc = skipc P.code gs.code.length) :
-    ∃ ri, checkProgs P src (⟨l2.left.tok, namesOf l2.right.left, outNameOf l2.right.right, (stmtsOf r2 gs.loops ps).1⟩ :: rest)
-        k infos pc = checkProgs P src rest (k + 1) (infos ++ [ri]) (progRes f' gs00 l2 r2).code.length ∧
-      TopInv src (progRes f' gs00 l2 r2) (k + 1) (infos ++ [ri]) ∧ TQ gs (progRes f' gs00 l2 r2) ∧
+    checkProgs P src (⟨l2.left.tok, namesOf l2.right.left, outNameOf l2.right.right, (stmtsOf r2 gs.loops ps).1⟩ :: rest)
+        k infos pc = checkProgs P src rest (k + 1) (infos ++ [progRi f' gs gs00 k0 l2 r2 k]) (progRes f' gs00 l2 r2).code.length ∧
+      TopInv src (progRes f' gs00 l2 r2) (k + 1) (infos ++ [progRi f' gs gs00 k0 l2 r2 k]) ∧ TQ gs (progRes f' gs00 l2 r2) ∧
       gs.labels.length ≤ (progRes f' gs00 l2 r2).labels.length ∧
       (progRes f' gs00 l2 r2).loops = gs.loops + loopCount r2 := by
-  unfold progRes at *
+  unfold progRes progRi at *
   have hPV : ∀ x ∈ namesOf l2.right.left, PV x := by
     unfold progNames at hpn
     rw [Bool.and_eq_true, List.all_eq_true] at hpn
@@ -123,6 +128,7 @@ theorem prog_corr (P : Program) (src : Source) (L : List Int) (f' : Nat) (gs gs0
   generalize hX : (⟨P.code, L, (bb.fetchVar (outNameOf l2.right.right)).1.top.regs, src, k, infos, gs.code.length + (k0 - 1) + 1⟩ : RC) = X at *
   have hXC : X.C = P.code := by rw [← hX]
   have hXL : X.L = L := by rw [← hX]
+  have hXR : X.R = (bb.fetchVar (outNameOf l2.right.right)).1.top.regs := by rw [← hX]
   have hbpre : bb.code <+: res.code := by rw [pq.code]; exact prefix_append_self _ _
   have hafl : after < bb.labels.length := by have := st.lablen; rw [hglabels] at this; simp at this; omega
   have hbafter : bb.labels[after]? = some (-1) := by
@@ -171,7 +177,7 @@ theorem prog_corr (P : Program) (src : Source) (L : List Int) (f' : Nat) (gs gs0
     intro p hp
     have hp' := List.mem_zipIdx_iff_getElem?.1 hp
     have hreg : g.top.regs[p.2]? = some ⟨true, false, p.1⟩ := by rw [hgregs, List.getElem?_map, hp']; rfl
-    have := regOf_of_links ok (sq.gq.regs.trans fv.vq.regs) hreg rfl (hPV p.1 (List.mem_of_getElem? hp'))
+    have := regOf_of_links ok (by rw [hXR]; exact sq.gq.regs.trans fv.vq.regs) hreg rfl (hPV p.1 (List.mem_of_getElem? hp'))
     rw [← hX] at this
     simp only [beq_iff_eq]
     exact this
@@ -181,19 +187,20 @@ theorem prog_corr (P : Program) (src : Source) (L : List Int) (f' : Nat) (gs gs0
   have r3 := atw.skip_eq hpre2 (by rw [hXL, hXC]; exact hag) (by intro h; cases h)
   rw [hXC] at r3
   obtain ⟨io, ro, o1, o2, o3⟩ := fv.reg
-  have hout := regOf_of_links ok (RegsExt.refl _) o2 o3 hPVout
+  have hout := regOf_of_links ok (regs := (bb.fetchVar (outNameOf l2.right.right)).1.top.regs)
+    (by rw [hXR]; exact RegsExt.refl _) o2 o3 hPVout
   have hLafter : (L[after]?).getD (-1) = ((bb.code.length + 1 : Nat) : Int) := by
     refine hfin after _ ?_ (by omega)
     rw [pq.labels, List.getElem?_set_self hafl]
   have hskip : skipc P.code pc + 1 = gs.code.length + (k0 - 1) + 1 := by rw [j3]
-  refine ⟨⟨gs.code.length + (k0 - 1) + 1, k, smap (bb.fetchVar (outNameOf l2.right.right)).1.top.regs⟩, ?_, ?_, ?_, ?_, ?_⟩
+  refine ⟨?_, ?_, ?_, ?_, ?_⟩
   · have hcp := checkProgs_cons_ok P src
       ⟨l2.left.tok, namesOf l2.right.left, outNameOf l2.right.right, (stmtsOf r2 gs.loops ps).1⟩ rest k infos pc
       ((L[after]?).getD (-1) - ((gs.code.length + (k0 - 1) : Nat) : Int)) ⟨l2.left.tok, smap (bb.fetchVar (outNameOf l2.right.right)).1.top.regs⟩ w (bb.fetchVar (outNameOf l2.right.right)).2
     rw [hskip] at hcp
     have hlen : res.code.length = skipc P.code w.pc + 1 := by rw [r3, pq.code]; simp
     rw [hlen]
-    refine hcp ?_ hsmap (namesNodup_smap (bb.fetchVar (outNameOf l2.right.right)).1.top.regs ok.ntn _ _) hparams ?_ ?_ ?_ ?_ ?_
+    refine hcp ?_ hsmap (namesNodup_smap (bb.fetchVar (outNameOf l2.right.right)).1.top.regs (hXR ▸ ok.ntn) _ _) hparams ?_ ?_ ?_ ?_ ?_
     · have := j1
       unfold VEnv.at at this
       rw [← hX] at this
